@@ -173,6 +173,57 @@ pub fn d7_manual() -> OptionParser<D7> {
     construct!([http, get, run]).to_options()
 }
 
+// ---- doc comment blocks (descr / header / footer) next to explicit annotations --------------------
+
+/// doc descr
+///
+///
+/// doc header
+///
+///
+/// doc footer
+#[derive(Debug, Clone, PartialEq, Bpaf)]
+#[bpaf(options, descr("explicit descr"))]
+pub struct D8 {
+    /// a flag
+    flag: bool,
+}
+
+pub fn d8_manual() -> OptionParser<D8> {
+    let flag = long("flag").help("a flag").switch();
+    construct!(D8 { flag }).to_options().descr("explicit descr").header("doc header").footer("doc footer")
+}
+
+/// doc descr
+///
+///
+/// doc header
+///
+///
+/// doc footer
+#[derive(Debug, Clone, PartialEq, Bpaf)]
+#[bpaf(options, header("explicit header"))]
+pub struct D9 {
+    flag: bool,
+}
+
+pub fn d9_manual() -> OptionParser<D9> {
+    let flag = long("flag").switch();
+    construct!(D9 { flag }).to_options().descr("doc descr").header("explicit header").footer("doc footer")
+}
+
+/// only a description
+#[derive(Debug, Clone, PartialEq, Bpaf)]
+#[bpaf(options, descr("explicit descr"))]
+pub struct D10 {
+    flag: bool,
+}
+
+pub fn d10_manual() -> OptionParser<D10> {
+    let flag = long("flag").switch();
+    construct!(D10 { flag }).to_options().descr("explicit descr")
+}
+
 macro_rules! dcorpus {
     ($($name:literal => $e:expr),* $(,)?) => {
         pub fn run_derived(name: &str, args: &[std::ffi::OsString]) -> Option<String> {
@@ -192,4 +243,7 @@ dcorpus!(
     "d5_derive" => d5(), "d5_manual" => d5_manual(),
     "d6_derive" => d6(), "d6_manual" => d6_manual(),
     "d7_derive" => d7(), "d7_manual" => d7_manual(),
+    "d8_derive" => d8(), "d8_manual" => d8_manual(),
+    "d9_derive" => d9(), "d9_manual" => d9_manual(),
+    "d10_derive" => d10(), "d10_manual" => d10_manual(),
 );
